@@ -1,6 +1,6 @@
 """C02  Derivatives returned are the true derivatives of the shape."""
 from fractions import Fraction as F
-from core import Case, q, qs, fr, show_list, show_pts, show_pts2
+from core import Case, q, qs, qpts, fr, show_list, show_pts, show_pts2
 import gen as G
 import shapes as S
 import jets as J
@@ -10,8 +10,10 @@ FLOAT_KINDS = {'cders', 'cders-alt', 'sders', 'sders-alt', 'bders23'}      # flo
 FLOAT_TOL = 1e-6
 STATS = G.STATS
 PARTIAL = [
-    "proved: curves, every order (curve_derivatives_are_true_derivatives); surfaces, every mixed order as partial derivatives of the bivariate span polynomial in Mathlib's F[X][Y] (surface_derivatives_are_true_mixed_derivatives; with SurfaceEvaluator2 only k+l <= order is computed, the rest is left zero); the list models of A4.2 and A4.4 solve the (bivariate) Leibniz system, whose solution is unique; A2.3 transcribed statement by statement (basisFunsDersA23, stream bders23) equals the specification table basisDers = derivatives of the basis polynomials, and does not divide by zero under the span guard; A3.2 as a sum over that table is the true derivative",
-    "not proved: that the quotient A/w of two polynomials has the derivatives returned by A4.2/A4.4 is stated through the Leibniz system and its uniqueness, not through a derivative of rational functions; the surface table model surfaceDersAt is the tensor combination of two A2.3 tables (A3.6 as a formula) - the loop structure of SurfaceEvaluator.derivatives / SurfaceEvaluator2 (A3.7/A3.8 control-point tables) and the hodograph constructors derivative_curve / derivative_surface are covered by the exact correspondence and the exact jet oracle only",
+    "proved: curves, every order (curve_derivatives_are_true_derivatives); surfaces, every mixed order as partial derivatives of the bivariate span polynomial in Mathlib's F[X][Y] (surface_derivatives_are_true_mixed_derivatives; with SurfaceEvaluator2 only k+l <= order is computed, the rest is left zero); the list models of A4.2 and A4.4 solve the (bivariate) Leibniz system, whose solution is unique; A2.3 transcribed statement by statement (basisFunsDersA23, stream bders23) equals the specification table basisDers = derivatives of the basis polynomials, and does not divide by zero under the span guard",
+    "proved (loops as coded, each transcription compared with the real function by its own stream): A3.2 CurveEvaluator.derivatives (curveDersA32, stream cders32), A3.6 SurfaceEvaluator.derivatives (surfaceDersA36, stream sders36: temp array, dd = min(deriv_order, d[1]) - equals the tensor-formula table, all k <= du, l <= dv filled), A3.7 helpers.surface_deriv_cpts after the fix a380c58 (surfaceDerivCptsA37, stream sdcpts37: exactly which entries of PKL are assigned, their values as v-differences of u-differences, A3.8 reads assigned entries only) and A3.8 SurfaceEvaluator2.derivatives (surfaceDersA38, stream sders38: equals the triangular table) return the true (mixed) derivatives; rational surfaces with the default evaluator as coded solve the Leibniz system of the true derivatives",
+    "proved (hodographs): derivative_curve (derivativeCurve, stream hodoc: control points PK[1], knot vector U[1:-1], degree p-1) evaluated on the shifted span is the first derivative, also through the library's own span search (the span found on U[1:-1] is the original span minus one); the three surfaces of derivative_surface (derivativeSurface, stream hodos) evaluated on the shifted span pairs are S_u, S_v, S_uv; tangent = (point, first derivatives), normal = cross product of the TRUE first partial derivatives (streams tanc / tans / nrms, single and list variants)",
+    "not proved: that the quotient A/w of two polynomials has the derivatives returned by A4.2/A4.4 is stated through the Leibniz system and its uniqueness, not through a derivative of rational functions; hodograph theorems are about the data handed to the setters of the new object: the knot vector setter re-normalises U[1:-1] when it does not span [0,1] (unclamped input, or a fresh object for a curve built with normalize_kv=False) - a reparametrisation outside the statement (the oracle maps the parameter affinely); the ZeroDivisionError of the hodograph constructors on knots of high multiplicity (F-02b for surfaces) is a guard of the driver op, not of the theorems (the model's x/0 = 0 is never read on the span the theorem speaks about)",
     "tangent / normal: orthogonality of the cross product to both first-derivative vectors and squared length 1 of v/mag whenever mag*mag = |v|^2 are proved for the models of vector_cross / vector_normalize; the floating-point sqrt and the 18-decimals rounding of vector_normalize are outside (checked in the oracle to 1e-12)",
 ]
 
@@ -28,6 +30,8 @@ def gen(rng, tier):
             G.count('order', order); G.count('evaluator', 'alt' if alt else 'default')
             line = "cders %s %s %d" % (S.args(d), fr(u), order)
             out.append(Case('cders-alt' if alt else 'cders', line, dict(shape=d, u=u, order=order, alt=alt)))
+            if not alt:      # A3.2 transcribed loop by loop (model `curveDersA32`)
+                out.append(Case('cders32', "cders32 %s %s %d" % (S.args(d), fr(u), order), dict(shape=d, u=u, order=order, alt=False)))
         else:
             d = S.rand_surface(rng, maxp=3, max_interior=2)
             u, v = S.rand_params(rng, d)
@@ -36,6 +40,11 @@ def gen(rng, tier):
             G.count('order', order); G.count('evaluator', 'surf-alt' if alt else 'surf-default')
             line = "sders %s %d %s %s %s %d" % ('1' if d['rat'] else '0', 1 if alt else 0, S.args(d)[2:], fr(u), fr(v), order)
             out.append(Case('sders-alt' if alt else 'sders', line, dict(shape=d, u=u, v=v, order=order, alt=alt)))
+            # A3.6 / A3.7+A3.8 transcribed loop by loop (models `surfaceDersA36`, `surfaceDersA38`)
+            if alt:
+                out.append(Case('sders38', "sders38 %s %s %s %d" % (S.args(d)[2:], fr(u), fr(v), order), dict(shape=d, u=u, v=v, order=order, alt=True)))
+            else:
+                out.append(Case('sders36', "sders36 %s %s %s %d" % (S.args(d), fr(u), fr(v), order), dict(shape=d, u=u, v=v, order=order, alt=False)))
     # A2.3 literally transcribed (model `basisFunsDersA23`) against helpers.basis_function_ders
     for _ in range(120 if tier == 'quick' else 2000):
         p = rng.randint(1, 7 if tier == 'quick' else 9)
@@ -46,19 +55,38 @@ def gen(rng, tier):
         G.count('a23-order', 'above' if order > p else order)
         out.append(Case('bders23', "bders23 %d %s %d %s %d" % (p, show_list(kv), k, fr(u), order),
                         dict(p=p, n=n, kv=kv, u=u, k=k, order=order)))
-    # hodograph constructors, tangent, normal: oracle only (no model line)
-    for _ in range(40 if tier == 'quick' else 500):
-        if rng.random() < .5:
+    # A3.7 transcribed loop by loop (model `surfaceDerivCptsA37`) against helpers.surface_deriv_cpts:
+    # the window of a span pair (what A3.8 passes) or the whole net (what derivative_surface passes)
+    for _ in range(60 if tier == 'quick' else 900):
+        d = S.rand_surface(rng, rational=False, maxp=3, max_interior=2)
+        if rng.random() < .6:
+            u, v = S.rand_params(rng, d)
+            ku, kv_ = G.span_of(d['kvu'], d['pu'], d['su'], u), G.span_of(d['kvv'], d['pv'], d['sv'], v)
+            win = (ku - d['pu'], ku, kv_ - d['pv'], kv_)
+        else:
+            win = (0, d['su'] - 1, 0, d['sv'] - 1)
+        order = rng.randint(0, max(d['pu'], d['pv']) + 2)
+        G.count('a37-window', 'span' if win[0] or win[1] != d['su'] - 1 else 'whole')
+        out.append(Case('sdcpts37', "sdcpts37 %s %d %d %d %d %d" % ((S.args(d)[2:],) + win + (order,)), dict(shape=d, win=list(win), order=order)))
+    # hodograph constructors, tangent, normal: model line (models `derivativeCurve`, `derivativeSurface`,
+    # `tangentCurve`, `tangentSurface`, `normalSurface`) and oracle
+    for _ in range(110 if tier == 'quick' else 1200):
+        if rng.random() < .35:
             d = S.rand_curve(rng, rational=False, maxp=5)
             if d['p'] < 2:
                 continue      # degree-0 shapes cannot be represented by the library
-            out.append(Case('hodograph-curve', None, dict(shape=d, u=S.rand_params(rng, d)[0])))
+            out.append(Case('hodograph-curve', "hodoc %s" % S.args(d)[2:], dict(shape=d, u=S.rand_params(rng, d)[0])))
         else:
             d = S.rand_surface(rng, rational=rng.random() < .3, maxp=3, max_interior=2)
             u, v = S.rand_params(rng, d)
             if min(d['pu'], d['pv']) < 2:
                 continue
-            out.append(Case(rng.choice(['hodograph-surface', 'tangent-normal']), None, dict(shape=d, u=u, v=v)))
+            if rng.random() < .5:
+                norm = S.unit_range(d['kvu']) and S.unit_range(d['kvv'])
+                line = None if d['rat'] else "hodos %d %s" % (1 if norm else 0, S.args(d)[2:])
+                out.append(Case('hodograph-surface', line, dict(shape=d, u=u, v=v)))
+            else:
+                out.append(Case('tangent-normal', None, dict(shape=d, u=u, v=v)))
     # hodograph surfaces of shapes without C0 knots (those hit the recorded finding F-02b), tangents of
     # curves, list variants of tangent / normal
     k = 0
@@ -67,7 +95,8 @@ def gen(rng, tier):
         if min(d['pu'], d['pv']) < 2:
             continue
         u, v = S.rand_params(rng, d)
-        out.append(Case('hodograph-surface', None, dict(shape=d, u=u, v=v)))
+        norm = S.unit_range(d['kvu']) and S.unit_range(d['kvv'])
+        out.append(Case('hodograph-surface', "hodos %d %s" % (1 if norm else 0, S.args(d)[2:]), dict(shape=d, u=u, v=v)))
         k += 1
     for _ in range(16 if tier == 'quick' else 200):
         d = S.rand_curve(rng, maxp=5)
@@ -77,6 +106,27 @@ def gen(rng, tier):
         d = S.rand_surface(rng, maxp=3, max_interior=2)
         uvs = [S.rand_params(rng, d) for _ in range(rng.randint(2, 3))]
         out.append(Case('tangent-normal-list', None, dict(shape=d, uvs=uvs)))
+    # refusals (oracle only): rational shapes are returned unchanged with a warning, wrong shape classes raise
+    for _ in range(6 if tier == 'quick' else 40):
+        out.append(Case('refusal', None, dict(curve=S.rand_curve(rng, maxp=3), surface=S.rand_surface(rng, maxp=2, max_interior=1),
+                                              rcurve=S.rand_curve(rng, rational=True, maxp=3),
+                                              rsurface=S.rand_surface(rng, rational=True, maxp=2, max_interior=1))))
+    # tangent / normal at single parameters and at parameter lists (the `_single_list` variants)
+    for _ in range(60 if tier == 'quick' else 700):
+        aslist = rng.random() < .4
+        m = rng.randint(1, 3) if aslist else 1
+        if rng.random() < .4:
+            d = S.rand_curve(rng, maxp=4)
+            us = [S.rand_params(rng, d)[0] for _ in range(m)]
+            G.count('tangent', 'curve-list' if aslist else 'curve')
+            out.append(Case('tanc', "tanc %s %s" % (S.args(d), show_list(us)), dict(shape=d, us=us, aslist=aslist)))
+        else:
+            d = S.rand_surface(rng, maxp=3, max_interior=2, dim=rng.choice([3, 3, 2]))
+            ps = [S.rand_params(rng, d) for _ in range(m)]
+            us, vs = [x[0] for x in ps], [x[1] for x in ps]
+            kind = rng.choice(['tans', 'nrms'])
+            G.count('tangent', kind + ('-list' if aslist else ''))
+            out.append(Case(kind, "%s %s %s %s" % (kind, S.args(d), show_list(us), show_list(vs)), dict(shape=d, us=us, vs=vs, aslist=aslist)))
     return out
 
 
@@ -94,6 +144,32 @@ def impl(c):
         from geomdl import helpers
         d = c.data
         return show_pts(helpers.basis_function_ders(d['p'], qs(d['kv']), d['k'], q(d['u']), d['order']))
+    if c.kind == 'sdcpts37':
+        from geomdl import helpers
+        d = c.data['shape']; r1, r2, s1, s2 = c.data['win']; order = c.data['order']
+        pkl = helpers.surface_deriv_cpts(d['dim'], (d['pu'], d['pv']), (qs(d['kvu']), qs(d['kvv'])), qpts(d['P']),
+                                         (d['su'], d['sv']), rs=(r1, r2), ss=(s1, s2), deriv_order=order)
+        du, dv = min(d['pu'], order), min(d['pv'], order)
+        return show_pts2([[pkl[k][l][i][j] for i in range(r2 - r1 - k + 1) for j in range(s2 - s1 - l + 1)]
+                          for k in range(du + 1) for l in range(min(order - k, dv) + 1)])
+    if c.kind in ('hodograph-curve', 'hodograph-surface', 'tanc', 'tans', 'nrms'):
+        from geomdl import operations
+        o = S.build(c.data['shape'])
+        if c.kind == 'hodograph-curve':
+            h = operations.derivative_curve(o)
+            return "%d %s %s" % (h.degree, show_list(h.knotvector), show_pts(h.ctrlpts))
+        if c.kind == 'hodograph-surface':
+            return " | ".join("%d %d %s %s %d %d %s" % (h.degree_u, h.degree_v, show_list(h.knotvector_u), show_list(h.knotvector_v),
+                                                      h.ctrlpts_size_u, h.ctrlpts_size_v, show_pts(h.ctrlpts))
+                              for h in operations.derivative_surface(o))
+        if c.kind == 'tanc':
+            us = [q(x) for x in c.data['us']]
+            res = operations.tangent(o, us, normalize=False) if c.data['aslist'] else (operations.tangent(o, us[0], normalize=False),)
+        else:
+            ps = [(q(a), q(b)) for a, b in zip(c.data['us'], c.data['vs'])]
+            f = operations.tangent if c.kind == 'tans' else operations.normal
+            res = f(o, ps, normalize=False) if c.data['aslist'] else (f(o, ps[0], normalize=False),)
+        return "|".join(";".join(show_list(list(x)) for x in r) for r in res)
     o = _obj(c)
     if c.kind.startswith('cders'):
         return show_pts(o.derivatives(q(c.data['u']), c.data['order']))
@@ -165,6 +241,26 @@ def oracle(c):
             return "basis_function_ders(%d, .., %d, %s, %d) differs from the exact derivatives of the basis polynomials" % (
                 d['p'], d['k'], fr(d['u']), d['order'])
         return None
+    if c.kind == 'refusal':
+        import warnings
+        from geomdl.exceptions import GeomdlException
+        crv, srf = S.build(c.data['curve']), S.build(c.data['surface'])
+        rc, rs = S.build(c.data['rcurve']), S.build(c.data['rsurface'])
+        with warnings.catch_warnings(record=True) as w:
+            warnings.simplefilter('always')
+            if operations.derivative_curve(rc) is not rc or operations.derivative_surface(rs) is not rs:
+                return "the hodograph constructor of a rational shape does not return its input"
+            if len(w) < 2:
+                return "the hodograph constructor of a rational shape does not warn"
+        for f, arg, what in ((operations.derivative_curve, srf, 'derivative_curve(surface)'),
+                             (operations.derivative_surface, crv, 'derivative_surface(curve)'),
+                             (lambda o: operations.normal(o, q(F(1, 2))), crv, 'normal(curve, u)')):
+            try:
+                f(arg)
+            except GeomdlException:
+                continue
+            return "%s does not raise GeomdlException" % what
+        return None
     d = c.data['shape']
     if c.kind.startswith('cders'):
         o = _obj(c)
@@ -185,6 +281,8 @@ def oracle(c):
                         fr(u), fr(v), order, ' [alternative evaluator]' if c.data['alt'] else '', k, l, show_list(got[k][l]), show_list(want[k][l]))
         return None
     o = S.build(d)
+    if c.kind in ('tanc', 'tans', 'nrms', 'sdcpts37'):
+        return _oracle_tn(c, d, o)
     if c.kind == 'hodograph-curve':
         u = c.data['u']
         h = operations.derivative_curve(o)
@@ -262,6 +360,42 @@ def oracle(c):
             ln = sum(float(x) ** 2 for x in nn[1])
             if any(x != 0 for x in cross) and abs(ln - 1.0) > 1e-12:
                 return "normalised normal has squared length %r" % ln
+        return None
+    return None
+
+
+def _oracle_tn(c, d, o):
+    """tangent / normal (single and list variants) against the exact jets; A3.7 control points: evaluating
+    level (k, l) with the basis functions of degrees (pu - k, pv - l) gives the exact mixed derivative"""
+    from geomdl import operations
+    if c.kind == 'tanc':
+        us = c.data['us']
+        res = operations.tangent(o, [q(x) for x in us], normalize=False) if c.data['aslist'] else (operations.tangent(o, q(us[0]), normalize=False),)
+        for u, (pt, vec) in zip(us, res):
+            ex = J.curve_ders(d, u, 1)
+            if list(pt) != ex[0] or list(vec) != ex[1]:
+                return "operations.tangent(curve, %s) is not (point, exact first derivative)" % fr(u)
+        return None
+    if c.kind in ('tans', 'nrms'):
+        ps = list(zip(c.data['us'], c.data['vs']))
+        f = operations.tangent if c.kind == 'tans' else operations.normal
+        qp = [(q(a), q(b)) for a, b in ps]
+        res = f(o, qp, normalize=False) if c.data['aslist'] else (f(o, qp[0], normalize=False),)
+        if len(res) != len(ps):
+            return "operations.%s returned %d results for %d parameter pairs" % (f.__name__, len(res), len(ps))
+        for (u, v), r in zip(ps, res):
+            ex = J.surface_ders(d, u, v, 1)
+            a, b = ex[1][0], ex[0][1]
+            if list(r[0]) != ex[0][0]:
+                return "operations.%s at (%s,%s): first entry is not the surface point" % (f.__name__, fr(u), fr(v))
+            if c.kind == 'tans':
+                if list(r[1]) != a or list(r[2]) != b:
+                    return "operations.tangent at (%s,%s) differs from the exact first partial derivatives" % (fr(u), fr(v))
+            else:
+                a3, b3 = (a + [F(0)])[:3], (b + [F(0)])[:3]
+                cross = [a3[1] * b3[2] - a3[2] * b3[1], a3[2] * b3[0] - a3[0] * b3[2], a3[0] * b3[1] - a3[1] * b3[0]]
+                if list(r[1]) != cross:
+                    return "operations.normal at (%s,%s) is not the cross product of the exact partial derivatives" % (fr(u), fr(v))
         return None
     return None
 
